@@ -13,8 +13,8 @@ from __future__ import annotations
 import ast
 
 from ..lib import *
-from ..twin import check_pairs
-from ._twins import pairs_for, all_pairs
+from ..twin import check_pairs, check_loose
+from ._twins import pairs_for, all_pairs, loose_for, all_loose
 from . import _tables as T
 
 EXPLANATION = (
@@ -96,10 +96,15 @@ def check(ctx):
     em_ = arr.own_methods.get("_elemwise")
     ok = em_ is not None and "elemwise" in unparse(em_)
     ctx.ob("DELEG.array-elemwise", em_ or arr.node, "Array._elemwise is elemwise", ok, nontrivial=False)
+    # ---------------- the key of an elementwise result covers everything that shapes it (TOKFLOW, shared with C13)
+    from .C13 import key_inputs
+
+    key_inputs(ctx, only={("dask/array/core.py", "elemwise"), ("dask/array/ufunc.py", "ufunc.outer"), ("dask/array/ufunc.py", "frexp"), ("dask/array/ufunc.py", "modf")}, floor=1)
     # ---------------- twin agreement with the array-expression engine's copies (see sa/twin.py)
     n_tw = check_pairs(ctx, pairs_for("C19"))
     ctx.count("twin_pairs", n_tw)
     ctx.floor("twin_pairs", 5)
+    check_loose(ctx, loose_for("C19"))
 
 
 VARIANTS = [
